@@ -26,6 +26,28 @@ LimbLeq(x, y) ==
 LimbEq(x, y) == LimbNorm(x) = LimbNorm(y)
 LimbLt(x, y) == LimbLeq(x, y) /\ ~LimbEq(x, y)
 
+(* x - y for y <= x (0 otherwise) *)
+LimbSub(x, y) ==
+    LET a == LimbNorm(x) b == LimbNorm(y) IN
+    IF ~LimbLeq(b, a) THEN LimbZero
+    ELSE LET lo0 == a[3] - b[3]    bw1 == IF a[3] < b[3] THEN 1 ELSE 0
+             lo  == IF bw1 = 1 THEN a[3] + LimbBase - b[3] ELSE lo0
+             bw2 == IF a[2] < b[2] + bw1 THEN 1 ELSE 0
+             mid == IF bw2 = 1 THEN a[2] + LimbBase - b[2] - bw1 ELSE a[2] - b[2] - bw1
+         IN <<a[1] - b[1] - bw2, mid, lo>>
+
+(* floor(x / 2) *)
+LimbHalf(x) ==
+    LET a == LimbNorm(x)
+        r1 == a[1] % 2
+        m  == a[2] + r1 * LimbBase
+        r2 == m % 2
+    IN <<a[1] \div 2, m \div 2, (a[3] + r2 * LimbBase) \div 2>>
+
+LimbOfNat(n) == LimbNorm(<<0, 0, n>>)
+LimbIsSmall(x) == LET a == LimbNorm(x) IN a[1] = 0 /\ a[2] < 256      \* below 2^29
+LimbToNat(x) == LET a == LimbNorm(x) IN a[2] * LimbBase + a[3]      \* only for LimbIsSmall values
+
 RECURSIVE LimbSumSeq(_, _)
 LimbSumSeq(s, f) == \* sum of f[s[i]] over the sequence s
     IF s = <<>> THEN LimbZero ELSE LimbAdd(f[Head(s)], LimbSumSeq(Tail(s), f))
